@@ -378,7 +378,8 @@ func RunPlan(p Plan) *Result {
 				val := fmt.Sprintf("c%dv%d", ci, atomic.AddInt64(&valCtr, 1))
 				cmd := []byte("P|" + key + "|" + val)
 				op := addOp(&Op{Client: ci, Host: hi, Write: true, Key: key, Val: val, Call: Now()})
-				if p.Sessions && !async {
+				// (on-disk state machines must use NoOP sessions: documented, ProposeSession panics)
+				if p.Sessions && p.Kind != KindOnDisk && !async {
 					// registered session with the documented retry discipline
 					op.Mode = "session"
 					if sess == nil || sessHost != hi {
